@@ -15,13 +15,15 @@ def choose_versions(run, exe, U, acc, rnd, nclass, nsingle):
     jobs = []
     sample = {}
     for e in ECOS:
-        sample[e] = rnd.sample(acc[e], min(len(acc[e]), 420))
+        sample[e] = rnd.sample(acc[e], min(len(acc[e]), 420 if run.tier == "quick" else 3000))
         jobs.append({"k": "matrix", "eco": e, "tag": "pre", "texts": sample[e], "part": [part[e].get(t, 0) for t in sample[e]]})
     jp, ep = run.path("pre.jobs"), run.path("pre.ev")
     vlib.write_ndjson(jp, jobs); vlib.run_harness(run, exe, jp, ep)
     out = {}
+    run.suspects = {}
     for ev in vlib.read_ndjson(ep):
         e = ev["eco"]; T = ev["texts"]; M = ev["m"]; P = ev["part"]
+        run.suspects[e] = suspects(T, M, P)
         seen = set(); classes = []
         for i in range(len(T)):
             if i in seen: continue
@@ -36,6 +38,25 @@ def choose_versions(run, exe, U, acc, rnd, nclass, nsingle):
         chosen += rnd.sample(rest, min(len(rest), nsingle))
         out[e] = [T[i] for i in sorted(set(chosen))]
     return out, part
+
+def suspects(T, M, P, limit=12):
+    """generator heuristic only (never a verdict): triples of the sample whose observed signs look
+    intransitive (found through pairs a rank does not explain); they are handed to the real sort as inputs"""
+    n = len(T)
+    R = [sum(1 for k in range(n) if P[k] == P[i] and M[k][i] < 0) for i in range(n)]
+    sgn = lambda x: (x > 0) - (x < 0)
+    out = []
+    for i in range(n):
+        for j in range(n):
+            if P[i] != P[j] or M[i][j] == sgn(R[i] - R[j]): continue
+            for k in range(n):
+                if P[k] != P[i] or k in (i, j): continue
+                a, b, c = M[i][k], M[k][j], M[i][j]
+                if (a <= 0 and b <= 0 and (c > 0 or ((a < 0 or b < 0) and c >= 0))) or (a >= 0 and b >= 0 and (c < 0 or ((a > 0 or b > 0) and c <= 0))):
+                    out.append([T[i], T[k], T[j]])
+                    break
+            if len(out) >= limit: return out
+    return out
 
 def check(run):
     quick = run.tier == "quick"
